@@ -803,6 +803,17 @@ class Engine:
             return self.str_join(st, recv, args[0])
         if name == 'isidentifier':
             return VBool(z3.Function('$isidentifier', S, B)(s))
+        if name in ('isalpha', 'isdigit', 'isupper', 'islower') and not args:
+            # uninterpreted character-class predicate; known: false for the empty string and for strings that start with
+            # an ASCII quote, bracket, blank or line break (not letters / digits)
+            lit = recv.lit()
+            if lit is not None:
+                return VBool(z3.BoolVal(getattr(lit, name)()))
+            pr = z3.Function('$str_' + name, S, B)
+            st.pc.append(z3.Not(pr(z3.StringVal(''))))
+            for c in ('"', "'", ' ', '\n', '(', '[', ':', '|', '*', '+'):
+                st.pc.append(z3.Implies(z3.PrefixOf(z3.StringVal(c), s), z3.Not(pr(s))))
+            return VBool(pr(s))
         if name in ('lower', 'upper') and not args:
             lit = recv.lit()
             if lit is not None:
